@@ -25,7 +25,7 @@ for pid in props:
 na = [{"property_id": pid, "reason": NA.get(pid, "check not built yet in this round; planned in DESIGN.md section 9")} for pid in props if pid not in CHECKS]
 m = {
     "version": 1,
-    "setup_cmd": "cd lean && lake build SnootyVerif snooty_driver",
+    "setup_cmd": "tools/setup.sh",
     "hooks": {
         "guard": "SNOOTY_VERIF",
         "enable": "no source hooks are needed: the harness imports snooty from /repo's working tree and interposes from outside (instrumented locks, injected postprocessor factory, audit hooks); ./check exports SNOOTY_VERIF=1 for completeness",
